@@ -30,15 +30,16 @@ CHECKS.update({
    text="Proof: Properties/C03.v - any two labellings of a step accepted by the sound monitor have identical total cost; optimality is invariant under the order of sources; 'drop' links "
         "only uncontested one-source/one-destination subnets; a per-axis range is exactly a rescaling (in-range test and costs coincide). Correspondence (differential): each movie through 5 "
         "strategies x link_iter/link/link_df_iter, permuted rows, legacy.link_iter (KDTree and hash table), pre-divided coordinates, and 'drop' (new and legacy); every labelling is replayed by "
-        "the monitor; partitions may differ only where the monitor certifies an equal-cost tie.",
+        "the monitor; partitions may differ only where the monitor certifies an equal-cost tie. Route T: nonrecursive_link is REGENERATED from /repo's source on every run (tools/py2coq_iterative.py -> coq/Gen/iterative.v) and proved to run the stack machine, hence to return exactly the recursive solver's answer; the generated function is executed next to the real one.",
    note=LINK_NOTE + " sklearn absent: the new linker's BTree neighbour strategy is not exercised. Solver-specific refinement proofs (nonrecursive, numba) are not done: agreement rests on the monitor.",
-   technique="machine-checked proofs over an executable Gallina model + translator from Python source to Coq for the solver core (regenerated per run) + correspondence run"),
+   technique="machine-checked proofs over an executable Gallina model + translator from Python source to Coq (regenerated per run, proved equal to the model) + correspondence run"),
  'C04': dict(
    text="Proof: Properties/C04.v - in the model with per-linker id counters, for EVERY schedule of Start/Step operations of any number of jobs the outputs of a job equal those of its solo run "
         "(non-interference by induction over the schedule; reproducibility corollary); the shared-counter model of the code before the fix is refuted by a witness schedule. Correspondence: "
         "real generators (link_iter, link_df_iter, find_link_iter) and complete tp.link calls interleaved by generated schedules (witness schedule first), each job compared with its solo and "
-        "repeated run and replayed by the Coq monitor.",
-   note=LINK_NOTE + " Interleaving happens at generator yield points only (single-threaded Python); threads are not modelled."),
+        "repeated run and replayed by the Coq monitor. The theorems' hypothesis (jobs share no state) is tied to the source by tools/audit_shared_state.py: an ast inventory of process-wide mutable state in the linking modules, compared on every run with the reviewed inventory vp/shared_state_expected.json; a new entry is a broken obligation and the schedule search continues.",
+   note=LINK_NOTE + " Interleaving happens at generator yield points only (single-threaded Python); threads are not modelled.",
+   technique="machine-checked proofs over an executable Gallina model + source audit of the theorem's hypothesis (regenerated per run) + correspondence run over schedules"),
  'C11': dict(
    text="Proof: Properties/C11.v - for the step-machine model, linking the movie with drift v*t added using the predictor pos + v*(t1 - t_seen) (applied to every live source, remembered ones "
         "included) equals label for label linking the undrifted movie without predictor, for any movie, velocity, frame numbering and memory; NullPredict is plain linking; labels are valid for "
@@ -49,15 +50,17 @@ CHECKS.update({
    text="Proof: Properties/C12.v - adaptive step = plain step whenever every subnet fits the adaptive limit; a subnet that fits is never split; every finally solved sub-group only contains "
         "candidate pairs within its reduced range (no longer link can be made) and is solved optimally with that range as the cost of not linking; a raise exhibits a still-oversize "
         "group at a range <= adaptive_stop and a normal return means there was none. Correspondence: link_iter(adaptive_stop, adaptive_step) with lowered MAX_SUB_NET_SIZE_ADAPTIVE on dense "
-        "clusters; the Coq model re-splits oversize groups itself and the monitor decides leaf by leaf admissibility and optimal cost for the leaf's range as null cost, and raise iff the model raises.",
+        "clusters; the Coq model re-splits oversize groups itself and the monitor decides leaf by leaf admissibility and optimal cost for the leaf's range as null cost, and raise iff the model raises. Route T: adaptive_link_wrap, split_subnet and subnet_linker_drop are REGENERATED from /repo's source on every run (tools/py2coq_adaptive.py -> coq/Gen/adaptive.v); the generated wrapper over the generated splitter is proved to be the generic adaptive recursion, the split dictionary to be the connected components, and the raise-iff / no-long-link / leaf-optimality theorems are proved for the composition; the ladder of reduced ranges actually used is observed in real runs.",
    note=LINK_NOTE + " 'Raise exactly when' is proved relative to sufficient fuel (a return containing OutOfFuel is reported by the monitor as code 10, never observed). "
-        "Correspondence restricted to isotropic ranges and binary-fraction steps (exact floats)."),
+        "Correspondence restricted to isotropic ranges and binary-fraction steps (exact floats).",
+   technique="machine-checked proofs over an executable Gallina model + translator from Python source to Coq (regenerated per run, proved equal to the model) + correspondence run"),
  'C10': dict(
    text="Proof: Properties/C10.v (2-D and 3-D, all sizes) - bandpass's result is pixel for pixel clip(thr, separable Gaussian correlation with zero border - box mean with replicated border), "
         "input shape, exact sign condition (never negative for thr >= 0), homogeneity, commutation with transposition, the llong<=lshort guard, and the kernel is the truncated normalised "
         "Gaussian with half-width floor(truncate*sigma+1/2). Correspondence: exact rational model vs trackpy.preprocessing.bandpass/lowpass/boxcar and masks.gaussian_kernel on generated float "
-        "images within a stated rounding tolerance; input purity by byte comparison.",
-   note=STAT_NOTE + "exp is a table from math.exp; scipy correlate1d / uniform_filter1d semantics are modelled."),
+        "images within a stated rounding tolerance; input purity by byte comparison. Route T: bandpass, lowpass, boxcar and gaussian_kernel are REGENERATED from /repo's source on every run (tools/py2coq_preproc.py -> coq/Gen/preproc.v) and proved equal to the 2-D and 3-D models for every input; the theorems are restated for the generated bandpass.",
+   note=STAT_NOTE + "exp is a table from math.exp; scipy correlate1d / uniform_filter1d semantics are modelled.",
+   technique="machine-checked proofs over an executable Gallina model + translator from Python source to Coq (regenerated per run, proved equal to the model) + correspondence run"),
  'C13': dict(
    text="Proof: Properties/C13.v - for every table, range, valid old labelling and valid in-range relinking, the model of link_partial / reconnect_traj_patch returns labels unique per frame, "
         "two rows share a label exactly when joined (equivalence closure of the three join rules, same-side reading), rows outside keep their grouping, rows and places are preserved, a range "
@@ -103,7 +106,7 @@ CHECKS.update({
    text="Proof: Properties/C20.v - filter_stubs / filter_clusters (modelled as pandas' groupby-filter algorithm) keep exactly the rows of qualifying trajectories with order and values "
         "preserved; for ANY pipeline length of producer stages every consumer accepts the result (finite index-layout algebra; exactly five layouts reachable), and producers give the same rows "
         "as on the default-indexed table; the pinned code is refuted on exactly the eight F9 pairs. Correspondence: EXHAUSTIVE producer pipelines up to depth 3 x every consumer on real pandas "
-        "tables (accept/raise, layout, numbers vs default-indexed), random tables for the filters.",
+        "tables (accept/raise, layout, numbers vs default-indexed), random tables for the filters. Route T: filter_stubs, filter_clusters, filter, pandas_sort and guess_pos_columns are REGENERATED from /repo's source on every run (tools/py2coq_filtering.py -> coq/Gen/filtering.v) over named pandas primitives and proved equal to the schema, row and data-flow models; the headline theorems are restated for the generated functions.",
    note=STAT_NOTE + "pandas' label-ambiguity rule and groupby-filter algorithm are modelled; that consumers never read the index is established by the exhaustive correspondence."),
 })
 CHECKS.update({
@@ -112,7 +115,7 @@ CHECKS.update({
         "(zeros outside) and outside the margin, no repeats; the box size is the largest k with k^2*ndim <= 4*sep^2; the 8-bit rescale of float images; with precise=True the result is a "
         "subset, pairwise separated, and every discard is justified by an at-least-as-bright candidate within separation; where_close / drop_close exact; monitors sound. Correspondence: "
         "model and monitors vs trackpy.find.grey_dilation / where_close / drop_close on integer and float images (plateaus, ties, negative pixels), 2-D/3-D, per-axis separations, margins, "
-        "percentiles; exhaustive 3x3 and 2x2x2 universes in the thorough tier.",
+        "percentiles; exhaustive 3x3 and 2x2x2 universes in the thorough tier. Route T: percentile_threshold, grey_dilation, drop_close and where_close are REGENERATED from /repo's source on every run (tools/py2coq_find.py -> coq/Gen/find.v) and proved equal to the model; the theorems are restated for the generated functions.",
    note=STAT_NOTE + "np.percentile enters as a parameter (the harness recomputes the threshold independently with numpy); scipy's grey_dilation window/padding and cKDTree.query_pairs are modelled."),
 })
 CHECKS.update({
@@ -125,7 +128,7 @@ CHECKS.update({
    note=STAT_NOTE + "The four numba kernels are REGENERATED from /repo's source on every run (tools/py2coq_com.py -> coq/Gen/com_kernels.v, fail-closed translator, trusted) and proved equal, "
         "cell for cell, to the hand-written kernel model (C07_generated_*); the python engine (_refine) and masks.py are hand-modelled and tied by correspondence. ecc is sliced out of the translation "
         "and compared engine-vs-engine only. numba is absent: 'compiled' execution is not exercised.",
-   technique="translator from the Python kernels to Coq (regenerated per run) + machine-checked equality with the hand model and proofs about it + correspondence run"),
+   technique="machine-checked proofs over an executable Gallina model + translator from Python source to Coq (regenerated per run, proved equal to the model) + correspondence run"),
 })
 CHECKS.update({
  'C08': dict(
